@@ -101,7 +101,14 @@ def account(prop, tier, want_tags, expl, level, extra_note=''):
     known = common.load_known()
     skipped, closed, unclosed, nested_docs = [], 0, [], []
     programs = 0
+    flat = []
+    nested_skipped = []
     for d in res['docs']:
+        flat.append(d)
+        flat += d.get('nested') or []
+        if d.get('nested_skipped'):
+            nested_skipped.append('%s: %s' % (d['name'], d['nested_skipped']))
+    for d in flat:
         if d['status'] == 'skip':
             skipped.append('%s: %s' % (d['name'], d['skip']))
             continue
@@ -109,7 +116,8 @@ def account(prop, tier, want_tags, expl, level, extra_note=''):
             part.errors.append('%s: %s' % (d['name'], d['reason']))
             continue
         programs += 1
-        base = re.sub(r'[^A-Za-z0-9]', '_', d['name'])
+        base = re.sub(r'[^A-Za-z0-9]', '_', d['name'].split('#')[0])
+        mbase = base + ('_m' + d['name'].split('#')[1] if '#' in d['name'] else '')
         step = d.get('step') or {}
         A, B, G = step.get('A'), step.get('B'), step.get('G')
         loop_closed = bool(A and A['status'] == 'ok' and not A['failed'] and A.get('classes', {}).get('loop_invariant_step', 0) > 0
@@ -202,6 +210,7 @@ def account(prop, tier, want_tags, expl, level, extra_note=''):
     part.programs = programs
     part.extra['documents_validated'] = programs
     part.extra['documents_skipped'] = skipped
+    part.extra['nested_machines_not_validated'] = nested_skipped
     part.extra['documents_with_DEQUEUE_loop_closed_by_loop_contract'] = closed
     part.extra['documents_where_loop_contract_not_closed_(their_step_obligations_are_counted_bounded)'] = unclosed
     part.extra['documents_with_nested_histories_(C02_history_clause_not_decided)'] = nested_docs
@@ -213,7 +222,7 @@ def account(prop, tier, want_tags, expl, level, extra_note=''):
     part.assumptions += [
         'genc: user callbacks honour const uscxml_ctx* (write nothing reachable from ctx); executable-content callbacks return USCXML_ERR_OK or an error code 3..8 (IDLE/DONE are the step function\'s own answers); is_true/is_matched return arbitrary ints',
         'genc: derived preconditions of the emitted code - ctx->is_matched, ctx->raise_done_event and ctx->invoke are non-NULL (called unguarded); a context is pristine (flags==0) or has USCXML_CTX_INITIALIZED',
-        'genc: nested machines of <invoke><content><scxml> are emitted into the same file but only the top machine (USCXML_MACHINE) is validated',
+        'genc: machines nested in <invoke><content><scxml> are validated like documents of their own (name doc#k); machines pulled in through invoke src= or nested deeper are not (listed)',
     ]
     if extra_note:
         part.assumptions.append(extra_note)
